@@ -162,7 +162,7 @@ fn judge(c: &[usize], out: &str, width: usize, align: char, truncate: bool) -> R
 }
 
 pub fn run(tier: Tier, shard: Shard, stats: &mut Stats) {
-    let maxlen = if tier == Tier::Quick { 4 } else { 6 };
+    let maxlen = if tier == Tier::Quick { 4 } else { 7 };
     let all = contents(maxlen);
     let mut widths: Vec<usize> = (0..=12).collect();
     widths.extend([255, 65535]);
@@ -428,7 +428,7 @@ pub fn run(tier: Tier, shard: Shard, stats: &mut Stats) {
 }
 
 pub fn meta(tier: Tier) -> Meta {
-    let l = if tier == Tier::Quick { 4 } else { 6 };
+    let l = if tier == Tier::Quick { 4 } else { 7 };
     Meta {
         level: "exploration",
         rule: format!("every content string of <= {l} units over {{a, b, é (2 bytes/1 col), 日 (3 bytes/2 cols), SGR-wrapped z (9 bytes/1 col)}} x width {{0..=12, 255, 65535}} x align {{<,^,>}} x truncate {{off,on}} through {{msg:...}} on a real bar; {{wide_msg}} / :> / :^ first or last on the line with 0-3 other columns on terminals of 1..=12 columns, alone and with other template lines before/after its line; the same next to an overflowing fixed-width field; every keyed field kind with widths 0..=12; tabbed text redrawn after set_tab_width through padded, truncating, centred and wide fields; column-exact oracle; distinct = (outcome kind, width, align, content shape); non-trivial = non-empty content"),
